@@ -35,6 +35,12 @@ func verifSub(site string, s *Subscription) {
 		}
 		site = "populate.deleted"
 	}
+	if site == "onLoaded" {
+		if s.state != stateDisposed {
+			return
+		}
+		site = "sub.onLoadedDisposed"
+	}
 	if site == "dispose" {
 		if s.state == stateDisposed {
 			return
